@@ -181,6 +181,7 @@ namespace nmtools::array
             auto size = nmtools::size(output);
             auto idx = compute_offset(thread_id,block_id,block_size);
             if (idx < size) {
+                NMTOOLS_VERIF_EVENT(verif::bounds(verif::KERNEL_WRITE,(long long)idx,(long long)nmtools::size(output)));
                 auto flat_lhs = unwrap(view::mutable_flatten(output));
                 auto flat_rhs = unwrap(view::flatten(result));
                 const auto rhs = flat_rhs(idx);
